@@ -353,14 +353,16 @@ def main(tier, seed, only=None):
         import pandas as pd
         rng = random.Random(seed + 17)
         codes = list(pd.read_csv(vlib.REPO + "/data/no_food_trade/computer_readable_combined.csv")["iso3"])
-        inst += [dict(country=c, scenario=names[rng.randrange(len(names))], NM=rng.choice([48, 84, 96, 120])) for c in rng.sample(codes, 16)]
-        inst = [dict(c, rounds="first") for c in inst] + [dict(country="USA", scenario=[n for n in names if n.startswith("baseline_USA")][0], NM=48), dict(country="ARG", scenario=names[2], NM=48)]
+        light = [n for n in names if "resilient" not in n]
+        inst += [dict(country=c, scenario=light[rng.randrange(len(light))], NM=rng.choice([48, 84, 96])) for c in rng.sample(codes, 8)]
+        # every round of one 48-month run (the rounds that charge feed cost seconds per query in exact arithmetic: about half an hour for this one case)
+        inst = [dict(c, rounds="first") for c in inst] + [dict(country="USA", scenario=[n for n in names if n.startswith("baseline_USA")][0], NM=48)]
     else:
         # quick tier: runs without resilient foods (seconds per LP); the seaweed / industrial-food LPs of the resilient scenarios take > 10 min each in exact arithmetic
         inst = [dict(c, rounds="first") for c in inst if "resilient" not in c["scenario"] and c["country"] not in ("FRA", "GRC", "JPN")]
     groups.append(dict(name="real_runs_constraints_entail_physical_audit", fn="worker_captured", cases=inst, replay=replay_captured,
                        functions=["ScenarioRunnerNoTrade.run_model_no_trade (whole pipeline, real PuLP + CBC)", "Optimizer.add_variables_and_constraints_to_model as called by the run (LpProblem.to_dict of every round)"],
-                       bounds="%d real country runs (shipped scenario files, horizons %s months): the first (no-feed) round of each; thorough: also every round of two 48-month runs" % (len(inst), sorted({c["NM"] for c in inst})),
+                       bounds="%d real country runs (shipped scenario files, horizons %s months): the first (no-feed) round of each; thorough: also every round of one 48-month run" % (len(inst), sorted({c["NM"] for c in inst})),
                        symbolic="every LP variable of the captured model (supplies, coefficients and horizon are the run's own, as exact rationals of the floats)",
                        assumptions=["entailment in the epsilon-relaxed form, 1e-9 x (1 + sum of supplies and variables)"], stubs=["results directory redirected to a scratch directory"],
                        outside=["runs other than the listed ones", "later stages of the multi-stage driver (C04)"]))
